@@ -41,6 +41,8 @@ class Walker:
         self.reads = []           # recorded (life, step, meta, resp) for cross-checks
         self.parked_at = {}       # (life, step) -> sorted gate names parked when the step was issued
         self.cur_tag = None
+        self.cur_feat = None
+        self.rebased = {}
         self.samples = []
 
     # ------------------------------------------------------------ helpers
@@ -52,7 +54,7 @@ class Walker:
             pass
         d = {"clause": clause, "life": li, "step": si, "detail": detail, "text": text,
              "after_restart": li > 0, "after_crash": self.crashed_prev,
-             "parked": self.parked_at.get((li, si), []), "tag": self.cur_tag}
+             "parked": self.parked_at.get((li, si), []), "tag": self.cur_tag, "feat": self.cur_feat}
         d.update(kw)
         self.viol.append(d)
 
@@ -157,6 +159,9 @@ class Walker:
                 continue
             self.stats["cmd:" + str(kind)] += 1
             self.cur_tag = meta.get("tag")
+            self.cur_feat = meta.get("feat")
+            if self.cur_feat:
+                self.stats["feat:" + self.cur_feat] += 1
             if kind in ("store", "define", "flush"):
                 self.checkpoint = {}
             h = getattr(self, "on_" + str(kind), None)
@@ -266,9 +271,17 @@ class Walker:
         for k, n in seen.items():
             if n > 1:
                 self.v("duplicate-row", li, si, f"{what}: k={k} returned {n} times", k=k)
+        rebase = (self.opts.get("rebase_after_restart") and resolve and li > 0 and what not in self.rebased.get(li, set()))
         for ev in expect_must:
             if seen[ev.k] == 0:
+                if rebase and ev.life < li:
+                    # this property is evaluated relative to what survived the restart (durability is C01's business)
+                    ev.state = "gone"
+                    self.stats["rebased_lost_at_restart"] += 1
+                    continue
                 self.v("lost", li, si, f"{what}: applied event k={ev.k} ({ev.type}/{ev.ctx}, stored in lifetime {ev.life}) missing", k=ev.k)
+        if rebase:
+            self.rebased.setdefault(li, set()).add(what)
         if resolve:
             for ev in expect_may:
                 if seen[ev.k] > 0:
